@@ -24,7 +24,7 @@ def scratch_dir(prefix):
 THRESHOLDS = [0.0, 0.125, 0.25, 0.5, 1.0, 2.0]
 EXACT_FACTORS = [0.5, 0.1, 0.2]
 GENERAL_FACTORS = [0.3, 0.7, 0.9, 0.25, 0.333, 0.05, 0.61]
-SHAPES = ["random", "monotone_down", "monotone_up", "slippery", "plateau", "exact_threshold", "sawtooth"]
+SHAPES = ["random", "monotone_down", "monotone_up", "slippery", "plateau", "exact_threshold", "sawtooth", "touch_zero"]
 STR_ALPHABET = ["a", "B", "z", " ", ",", '"', "'", ";", "0", "-", "x,y", '""', "#"]
 
 
@@ -77,6 +77,13 @@ def gen_metrics(rng, shape, n, thr):
         for i in range(n):
             out.append(v)
             v = max(0.0, min(99.875, v + (rng.choice([t, 1.0, 0.125]) if i % 2 == 0 else -rng.choice([t, 2 * t, 0.125, 1.5]))))
+        return out
+    if shape == "touch_zero":
+        # the metric reaches exactly 0 and hovers there (a value that is falsy, not "missing")
+        v, out = rng.choice([0.25, 0.75, 1.0, 2.0]), []
+        for _ in range(n):
+            out.append(v)
+            v = rng.choice([0.0, 0.0, 0.0, 0.125, t, 0.25])
         return out
     raise ValueError(shape)
 
